@@ -238,6 +238,35 @@ class DiagAnalysis:
                         for x in walk(n["c"][0]):
                             if x.get("k") == "DeclRefExpr" and x.get("dk") == "Function" and x.get("fn"):
                                 ts += self.prog.resolve(f, x["fn"])
+        if not ts and call.get("k") == "CallExpr" and call.get("c"):
+            # call through a function pointer kept in a record: every function ever stored in that field
+            ce = strip_all(call["c"][0])
+            if ce is not None and ce.get("k") == "MemberExpr" and ce.get("dk") == "Field":
+                fname = ce.get("n")
+
+                def functions_in(g, e, depth=0):
+                    out = []
+                    for x in walk(e):
+                        if x.get("k") == "DeclRefExpr" and x.get("dk") == "Function" and x.get("fn"):
+                            p_ = g.parent(x)
+                            while p_ is not None and p_.get("k") in ("ImplicitCastExpr", "ParenExpr", "UnaryOperator"):
+                                p_ = g.parent(p_)
+                            if p_ is not None and is_call(p_) and p_.get("fn") == x.get("fn"):
+                                # the callee of a direct call: its *result* may be a function
+                                if depth < 2:
+                                    for t in self.prog.call_targets(g, p_):
+                                        for r_ in t.walk():
+                                            if r_.get("k") == "ReturnStmt" and r_.get("c"):
+                                                out += functions_in(t, r_["c"][0], depth + 1)
+                                continue
+                            out += self.prog.resolve(g, x["fn"])
+                    return out
+                for g in self.prog.functions.values():
+                    for n in g.walk():
+                        if n.get("k") == "BinaryOperator" and n.get("op") == "=":
+                            tgt = strip_all(n["c"][0])
+                            if tgt is not None and tgt.get("k") == "MemberExpr" and tgt.get("n") == fname:
+                                ts += functions_in(g, n["c"][1])
         if not ts and call.get("k") == "CXXOperatorCallExpr" and call.get("op") == "()" and len(call.get("c", [])) >= 2:
             # lambda / std::function object held in a local: the lambda bodies defined in this function
             obj = strip_all(call["c"][1])
@@ -552,6 +581,9 @@ class DiagAnalysis:
                 continue
             # getopt's '?' result: the C library has already printed the message (opterr is never cleared: census)
             if calls_getopt and any(k[0] == "S" and k[2] == 63 for k in facts_):
+                continue
+            # ... the same decision written as a comparison: `if (opt == '?') return 1;`
+            if calls_getopt and any(k[0] == "C" and k[2] == "==" and "#63" in (k[1], k[3]) for k in facts_):
                 continue
             if isinstance(how, tuple) and how[0] == "call":
                 if st <= good:
